@@ -129,6 +129,28 @@ Theorem C15_pruning_order_mnn_fallback :
 Proof. exact fallback_mnn_pruning_order. Qed.
 Print Assumptions C15_pruning_order_mnn_fallback.
 
+(* ---- the same engine, full pruning clause on fronts without duplicate points: the removed points were removed ONE AT A TIME,
+   each a point of smallest value among those then remaining, all values being the M-nearest-neighbour products with respect to
+   the points then remaining (Proofs/MnnDefP.v: greedy / is_def / nn_product, see C13_mnn_fallback_matches_definition), and
+   they are the smallest entries of the final vector. ---- *)
+From PV Require Import Proofs.MnnDefP.
+Theorem C15_mnn_fallback_prunes_one_at_a_time :
+  forall (twonn : bool) (F : list (list eq)) m (n_remove : Z),
+    fin_matrix F m -> 2 <= m -> length (hd [] F) = m -> (if twonn then 2 else m) < length F -> no_duplicates F m ->
+    let n := length F in
+    let M := if twonn then 2 else m in
+    let ext := extremes_of (X := EQx) F in
+    let Xn := normalize (X := EQx) true F in
+    let D0 := map (fun a => map (fun b => sqdist (X := EQx) a b) Xn) Xn in
+    let d0 := set_inf (X := EQx) ext (map (mnn_row (X := EQx) M) D0) in
+    let d := fallback_mnn (X := EQx) twonn F n_remove in
+    let Hf := mnn_remaining twonn F n_remove in
+    greedy n M ext D0 (clamp_remove n_remove n m - 1) (seq 0 n) d0 Hf d /\
+    NoDup Hf /\ length Hf + (clamp_remove n_remove n m - 1) = n /\
+    forall r p, r < n -> ~ In r Hf -> In p Hf -> gle (nth r d ENaN) (nth p d ENaN).
+Proof. exact fallback_mnn_prunes_one_at_a_time. Qed.
+Print Assumptions C15_mnn_fallback_prunes_one_at_a_time.
+
 (* ---- binary64: the comparisons of IEEE doubles form a strict weak order on all values but NaN, infinities included
    (Base/NumFOrd.v, Flocq), so the cut theorems hold for the crowding vectors the code actually computes ---- *)
 From Coq Require Import PrimFloat.
